@@ -72,6 +72,32 @@ fn gen_themed(src: &mut Src, tier: Tier) -> Case {
     Case { pat, flags: fl.text(), hay, hay16: vec![], start, x: serde_json::Value::Null }
 }
 
+/// compilable token soup x haystacks over the characters the fragments mention
+fn gen_soup_match(src: &mut Src, tier: Tier) -> Case {
+    let pat = crate::soup::gen_soup(src, 7);
+    let fl = crate::soup::gen_flags_any(src);
+    let alpha: Vec<u32> = vec![0x61, 0x62, 0x63, 0x41, 0x31, 0x30, 0x75, 0x78, 0x70, 0x5F, 0x2D, 0x20, 0x0A, 0xE9, 0x17F, 0x212A, 0x1F600, 0x10400, 0x02, 0x41, 0x7B, 0x7D, 0x5D];
+    let sub: Vec<u32> = (0..4).map(|_| *src.pick(&alpha)).collect();
+    let hay = gen_hay(src, &sub, if tier == Tier::Quick { 8 } else { 12 });
+    let start = gen_start(src, &hay);
+    Case { pat, flags: fl.text(), hay, hay16: vec![], start, x: serde_json::Value::Null }
+}
+
+/// names duplicated across alternatives, with \k references
+fn gen_dup_names(src: &mut Src, tier: Tier) -> Case {
+    let fl = Fl::gen(src);
+    let alpha: Vec<u32> = vec![0x61, 0x62];
+    let mut cfg = GenCfg::full(fl, alpha.clone());
+    cfg.named = false;
+    let mut avail: Vec<&'static str> = super::c16::NAMES[..3].to_vec();
+    let k = 1 + src.below(3);
+    let node = Node::Cat((0..k).map(|_| super::c16::gen_dup(src, &cfg, &mut avail, 0)).collect());
+    let pat = Printer::print(&node, fl.mode);
+    let hay = if src.chance(1, 2) { witness_hay(src, &node, fl, &alpha, 2) } else { gen_hay(src, &alpha, if tier == Tier::Quick { 8 } else { 12 }) };
+    let start = gen_start(src, &hay);
+    Case { pat, flags: fl.text(), hay, hay16: vec![], start, x: serde_json::Value::Null }
+}
+
 pub const REF_LIMIT: u64 = 3_000_000;
 
 pub fn check(case: &Case, l: &mut Local) -> Verdict {
@@ -147,17 +173,22 @@ pub fn check(case: &Case, l: &mut Local) -> Verdict {
 pub static V: Variant = Variant { name: "general", choice_len: 400, gen, check };
 pub static VT: Variant = Variant { name: "themed", choice_len: 400, gen: gen_themed, check };
 
+pub static VS: Variant = Variant { name: "soup_match", choice_len: 100, gen: gen_soup_match, check };
+pub static VD: Variant = Variant { name: "dup_names", choice_len: 300, gen: gen_dup_names, check };
+
 pub fn variants() -> Vec<&'static Variant> {
-    vec![&V, &VT]
+    vec![&V, &VT, &VS, &VD]
 }
 
 pub fn run(ctx: &Ctx) -> i32 {
     esref::selftest::ensure();
     ctx.run_variant(&V, ctx.scale(400_000, 8_000_000));
     ctx.run_variant(&VT, ctx.scale(200_000, 4_000_000));
+    ctx.run_variant(&VS, ctx.scale(400_000, 6_000_000));
+    ctx.run_variant(&VD, ctx.scale(200_000, 3_000_000));
     ctx.finish(
         "exploration",
-        "random ES patterns, valid by construction, over all 24 flag sets (i,m,s x none/u/v), inline modifiers, themed alphabets (ASCII, case-special, 1-4 byte, line terminators, white space, word/non-word) and themed shapes (nested empty-matchable quantifiers, lazy loops + backreferences, backreference inside its own group, captures in lookbehind, anchors under scoped m, counts at 0/1/2, scoped i); haystacks <= 8 (12) code points, random or sampled from the pattern's own language; every start offset. Oracle: esref, an independent spec-shaped ECMAScript reference model (ES2025 22.2 on code-point input) re-validated on every run against a frozen corpus of V8 verdicts. Compared: start, end and every capture slot of find_from(..).next(). Non-trivial = at least two construct kinds beyond literals and a decisive search (a match, or a failed search that consumed input).",
+        "random ES patterns, valid by construction, over all 24 flag sets (i,m,s x none/u/v), inline modifiers, themed alphabets (ASCII, case-special, 1-4 byte, line terminators, white space, word/non-word) and themed shapes (nested empty-matchable quantifiers, lazy loops + backreferences, backreference inside its own group, captures in lookbehind, anchors under scoped m, counts at 0/1/2, scoped i); haystacks <= 8 (12) code points, random or sampled from the pattern's own language; every start offset. Also compilable token soup (the parser's special cases: legacy octal / \\c / \\u fallbacks, Annex B class ranges, reserved punctuators) and patterns with group names duplicated across alternatives and \\k references. Oracle: esref, an independent spec-shaped ECMAScript reference model (ES2025 22.2 on code-point input) re-validated on every run against a frozen corpus of V8 verdicts. Compared: start, end and every capture slot of find_from(..).next(). Non-trivial = at least two construct kinds beyond literals and a decisive search (a match, or a failed search that consumed input).",
         &["esref (harness/src/esref) is the trusted base; its Unicode data are exported from V8/ICU (Unicode 17) and std, never from regress", "patterns on whose validity regress and esref disagree are C08's business and are skipped here (counted)", "fuel hook"],
     )
 }
